@@ -301,33 +301,71 @@ theorem Fl.le_negInf_fin {x : Fl} (h : x.isFinite = true) : Fl.le .negInf x = tr
     Fl.le x .posInf = true ∧ Fl.lt x .posInf = true := by
   cases x <;> simp [Fl.isFinite] at h <;> simp [Fl.le, Fl.lt]
 
-/-- for a finite JSON number the bounds keywords say exactly `Bounds.contains`
-(a skipped `-inf` / `+inf` bound constrains no finite number) -/
+/-- the schema never asks more than the declared bounds: a finite number inside the bounds passes
+every bounds keyword (any declaration) -/
+theorem validate_numberSchema_of_contains (t : String) (b : Bounds) (j : Json) (x : Fl)
+    (hx : j.num? = some x) (ht : hasType t j = true) (hc : b.contains x = true) :
+    validate (numberSchema t b) j = true := by
+  unfold numberSchema declareNumericBounds
+  unfold Bounds.contains at hc
+  rcases b with ⟨range, il, ih⟩
+  rcases range with _ | ⟨lo, hi⟩
+  · simp [validate, validateKws, jstr, ht]
+  · rcases lo with _ | lo <;> rcases hi with _ | hi
+    · simp [validate, validateKws, jstr, ht]
+    · by_cases hp : hi.isFinite = true <;> cases ih <;> simp at hc <;>
+        simp [validate, validateKws, jstr, numKw, hx, Num.json_num, hp, ht, hc]
+    · by_cases hn : lo.isFinite = true <;> cases il <;> simp at hc <;>
+        simp [validate, validateKws, jstr, numKw, hx, Num.json_num, hn, ht, hc]
+    · by_cases hn : lo.isFinite = true <;> by_cases hp : hi.isFinite = true <;> cases il <;> cases ih <;>
+        simp at hc <;>
+        simp [validate, validateKws, jstr, numKw, hx, Num.json_num, hn, hp, ht, hc]
+
+/-- for a finite JSON number and satisfiable bounds the bounds keywords say exactly
+`Bounds.contains` (a skipped `-inf` / `+inf` bound constrains no finite number) -/
 theorem validate_numberSchema (t : String) (b : Bounds) (j : Json) (x : Fl) (hx : j.num? = some x)
-    (hfin : x.isFinite = true) :
+    (hfin : x.isFinite = true) (hs : b.sane = true) :
     validate (numberSchema t b) j = (hasType t j && b.contains x) := by
   obtain ⟨f1, f2, f3, f4⟩ := Fl.le_negInf_fin hfin
-  have negInf_fl : ∀ l : Num, l.isNegInf = true → l.fl = .negInf := by
-    intro l h; cases l with
-    | int _ => simp [Num.isNegInf] at h
-    | float y => cases y <;> simp [Num.isNegInf] at h <;> rfl
-  have posInf_fl : ∀ l : Num, l.isPosInf = true → l.fl = .posInf := by
-    intro l h; cases l with
-    | int _ => simp [Num.isPosInf] at h
-    | float y => cases y <;> simp [Num.isPosInf] at h <;> rfl
+  have lo_cases : ∀ l : Num, (l.isFinite || l == .float .negInf) = true → l.isFinite = false → l.fl = .negInf := by
+    intro l h1 h2
+    simp only [h2, Bool.false_or, beq_iff_eq] at h1
+    subst h1; rfl
+  have hi_cases : ∀ l : Num, (l.isFinite || l == .float .posInf) = true → l.isFinite = false → l.fl = .posInf := by
+    intro l h1 h2
+    simp only [h2, Bool.false_or, beq_iff_eq] at h1
+    subst h1; rfl
   unfold numberSchema declareNumericBounds Bounds.contains
+  unfold Bounds.sane at hs
   rcases b with ⟨range, il, ih⟩
   rcases range with _ | ⟨lo, hi⟩
   · simp [validate, validateKws, jstr]
   · rcases lo with _ | lo <;> rcases hi with _ | hi
     · simp [validate, validateKws, jstr]
-    · by_cases hp : hi.isPosInf = true <;> cases ih <;>
-        simp [validate, validateKws, jstr, numKw, hx, Num.json_num, hp, posInf_fl, f3, f4]
-    · by_cases hn : lo.isNegInf = true <;> cases il <;>
-        simp [validate, validateKws, jstr, numKw, hx, Num.json_num, hn, negInf_fl, f1, f2]
-    · by_cases hn : lo.isNegInf = true <;> by_cases hp : hi.isPosInf = true <;> cases il <;> cases ih <;>
-        simp [validate, validateKws, jstr, numKw, hx, Num.json_num, hn, hp, negInf_fl, posInf_fl,
-          f1, f2, f3, f4, Bool.and_comm]
+    · simp only [Bool.true_and] at hs
+      by_cases hp : hi.isFinite = true
+      · cases ih <;> simp [validate, validateKws, jstr, numKw, hx, Num.json_num, hp]
+      · have e := hi_cases hi hs (by simpa using hp)
+        cases ih <;> simp [validate, validateKws, jstr, hp, f3, f4, e]
+    · simp only [Bool.and_true] at hs
+      by_cases hn : lo.isFinite = true
+      · cases il <;> simp [validate, validateKws, jstr, numKw, hx, Num.json_num, hn]
+      · have e := lo_cases lo hs (by simpa using hn)
+        cases il <;> simp [validate, validateKws, jstr, hn, f1, f2, e]
+    · simp only [Bool.and_eq_true] at hs
+      by_cases hn : lo.isFinite = true <;> by_cases hp : hi.isFinite = true
+      · cases il <;> cases ih <;>
+          simp [validate, validateKws, jstr, numKw, hx, Num.json_num, hn, hp, Bool.and_comm]
+      · have e := hi_cases hi hs.2 (by simpa using hp)
+        cases il <;> cases ih <;>
+          simp [validate, validateKws, jstr, numKw, hx, Num.json_num, hn, hp, f3, f4, e]
+      · have e := lo_cases lo hs.1 (by simpa using hn)
+        cases il <;> cases ih <;>
+          simp [validate, validateKws, jstr, numKw, hx, Num.json_num, hn, hp, f1, f2, e]
+      · have e1 := lo_cases lo hs.1 (by simpa using hn)
+        have e2 := hi_cases hi hs.2 (by simpa using hp)
+        cases il <;> cases ih <;>
+          simp [validate, validateKws, jstr, hn, hp, f1, f2, f3, f4, e1, e2]
 
 theorem dumpsL_length : ∀ (l : List PyVal) (js : List Json), dumpsL l = .ok js → js.length = l.length
   | [], js, h => by simp [dumpsL] at h; subst h; rfl
@@ -505,40 +543,26 @@ theorem wellFormed_typeObj (t : String) : wellFormed (typeObj t) = knownType t :
 theorem wellFormed_nullable (s : Json) : wellFormed (nullable s) = wellFormed s := by
   simp [nullable, wellFormed, wellFormedKws, wellFormedAll, wellFormed_typeObj, knownType]
 
-def Num.isFinite : Num → Bool
-  | .int _ => true
-  | .float x => x.isFinite
-
-/-- every bound that `declare_numeric_bounds` writes into the schema is a finite number:
-the lower bound is not `+inf` / `nan`, the upper bound is not `-inf` / `nan`
-(`-inf` below and `+inf` above are skipped by the code) -/
-def Bounds.emittedFinite (b : Bounds) : Bool :=
-  match b.range with
-  | none => true
-  | some (lo, hi) =>
-    (match lo with | some l => l.isNegInf || l.isFinite | none => true) &&
-    (match hi with | some h => h.isPosInf || h.isFinite | none => true)
-
 theorem Num.json_finite {n : Num} (h : n.isFinite = true) : isFiniteNumber n.json = true := by
   cases n
   · rfl
   · simpa [Num.isFinite, Num.json, isFiniteNumber] using h
 
-theorem wellFormed_numberSchema (t : String) (b : Bounds) (ht : knownType t = true)
-    (hb : b.emittedFinite = true) : wellFormed (numberSchema t b) = true := by
+/-- every bound written into the schema is finite, whatever was declared -/
+theorem wellFormed_numberSchema (t : String) (b : Bounds) (ht : knownType t = true) :
+    wellFormed (numberSchema t b) = true := by
   unfold numberSchema declareNumericBounds
   rcases b with ⟨range, il, ih⟩
   rcases range with _ | ⟨lo, hi⟩
   · simp [wellFormed, wellFormedKws, jstr, ht]
   · rcases lo with _ | lo <;> rcases hi with _ | hi
     · simp [wellFormed, wellFormedKws, jstr, ht]
-    · by_cases hp : hi.isPosInf = true <;> cases ih <;> simp [Bounds.emittedFinite, hp] at hb <;>
-        simp [wellFormed, wellFormedKws, jstr, ht, hp, Num.json_finite, hb]
-    · by_cases hn : lo.isNegInf = true <;> cases il <;> simp [Bounds.emittedFinite, hn] at hb <;>
-        simp [wellFormed, wellFormedKws, jstr, ht, hn, Num.json_finite, hb]
-    · by_cases hn : lo.isNegInf = true <;> by_cases hp : hi.isPosInf = true <;> cases il <;> cases ih <;>
-        simp [Bounds.emittedFinite, hn, hp] at hb <;>
-        simp [wellFormed, wellFormedKws, jstr, ht, hn, hp, Num.json_finite, hb]
+    · by_cases hp : hi.isFinite = true <;> cases ih <;>
+        simp [wellFormed, wellFormedKws, jstr, ht, hp, Num.json_finite]
+    · by_cases hn : lo.isFinite = true <;> cases il <;>
+        simp [wellFormed, wellFormedKws, jstr, ht, hn, Num.json_finite]
+    · by_cases hn : lo.isFinite = true <;> by_cases hp : hi.isFinite = true <;> cases il <;> cases ih <;>
+        simp [wellFormed, wellFormedKws, jstr, ht, hn, hp, Num.json_finite]
 
 theorem wellFormed_atom (a : ClassAtom) : wellFormed a.schema = true := by
   cases a <;> simp [ClassAtom.schema, wellFormed_typeObj, knownType]
